@@ -199,6 +199,14 @@ func genString(h *vh.H) []byte {
 
 func (impl) Exec(h *vh.H, op string) string {
 	f := strings.Split(op, " ")
+	// "parsing never panics on any string" / rendering never panics: a panic in the real code is a
+	// violation with this op as the replay (the engine's Guard still turns it into the result "panic")
+	defer func() {
+		if r := recover(); r != nil {
+			h.Fail(f[0]+"-panic", op, fmt.Sprint(r))
+			panic(r)
+		}
+	}()
 	switch f[0] {
 	case "render":
 		b, ok := vh.UnHex(f[1])
